@@ -61,6 +61,7 @@ Inv_C13_NCEM == Leaf => C13_NCReducesToEM(Cell)
 Inv_C13_Flip == Leaf => C13_PositronFlip(Cell)
 Inv_C13_Conj == Leaf => C13_ChargeConjugation(Cell)
 Inv_C13_Exch == Leaf => C13_EqualChargeExchange(Cell)
+Inv_C13_Tagged == Leaf => C13_TaggedSpectators(Cell)
 Inv_C16 == Leaf => C16_OutcomeTotal(Cell)
 Inv_Registry == Leaf => RegistryComplete(Cell)
 Inv_C08_Mirror == Leaf => C08_AsyMirrorsMassive(Cell)
